@@ -160,7 +160,7 @@ def compare_file(path, exp, genes, label, tree_expect=None):
 
 
 def write_files(d, x, cell_ids, genes, comp, encoding, tag, obs_cols=None,
-                normalised=False):
+                normalised=False, same_name=False):
     paths = []
     a = 0
     data = own_log2cpm(x) if normalised else x
@@ -176,7 +176,12 @@ def write_files(d, x, cell_ids, genes, comp, encoding, tag, obs_cols=None,
             index=pd.Index(cell_ids[a:b_]))
         ad = anndata.AnnData(X=xx, obs=obs,
                              var=pd.DataFrame(index=pd.Index(genes)))
-        p = d / f'ref_{tag}_{k}.h5ad'
+        if same_name:
+            # per-dataset directories holding identically named files
+            (d / f'ds_{tag}_{k}').mkdir(exist_ok=True)
+            p = d / f'ds_{tag}_{k}' / 'expression.h5ad'
+        else:
+            p = d / f'ref_{tag}_{k}.h5ad'
         ad.write_h5ad(p)
         paths.append(p)
         a = b_
@@ -213,15 +218,15 @@ def evaluate(case, scratch):
             violations.append({'key': key, 'msg': m})
 
     def run_tree(x, cell_ids, cluster_of, comp, rows, procs, encoding, tag,
-                 normalised=False, copy=False):
+                 normalised=False, copy=False, same_name=False):
         nonlocal n_runs
         paths = write_files(d, x, cell_ids, genes, comp, encoding, tag,
-                            normalised=normalised)
+                            normalised=normalised, same_name=same_name)
         tree = tree_for(cluster_of, cell_ids)
         out = d / f'stats_{tag}.h5'
         label = (f'labels={cluster_of} files={comp} rows_at_a_time={rows} '
                  f'n_processors={procs} {encoding} normalised={normalised} '
-                 f'copy_data_over={copy}')
+                 f'copy_data_over={copy} same_basename={same_name}')
         try:
             precompute_summary_stats_from_h5ad_list_and_tree(
                 data_path_list=[str(p) for p in paths],
@@ -334,6 +339,15 @@ def evaluate(case, scratch):
                                        copy=copy)
                         if out is not None:
                             out.unlink()
+        # files with the same name in different directories
+        for copy in (False, True):
+            for procs in (1, 2):
+                for comp in ((2, n - 2), (1, 2, n - 3)):
+                    out = run_tree(x, cell_ids, cluster_of, comp, 2, procs,
+                                   'dense', f'p3s_{copy}_{procs}_{len(comp)}',
+                                   copy=copy, same_name=True)
+                    if out is not None:
+                        out.unlink()
         sample = {'kind': 'P3 deviations'}
     elif case['kind'] == 'P4':
         n_runs += coarsening(d, tmp, case, viol, keys)
